@@ -81,6 +81,9 @@ def run(facts, R):
         pe = sym.op(payload)
         fs = facts_at(b, sym, facts, i)
         guarded = ok_fact(fs, lambda e: is_call(e, CHECK) and is_call(e[2][1], "len") and e[2][1][2][0] == pe)
+        if not guarded and is_call(pe, "message::Message::to_vec", "message::Message::into_wire_bytes"):
+            # the guard may be computed before the bytes exist: serialized_len(m) is the length to_vec(m) will have (C01 emission rules)
+            guarded = ok_fact(fs, lambda e: is_call(e, CHECK) and is_call(e[2][1], "message::Message::serialized_len") and e[2][1][2][0] == pe[2][0])
         R.check(guarded, "binary-is-guarded", b.path, "Binary<-check_outbound",
                 "Binary(%s) is neither frame_outbound's result nor dominated by check_outbound(len(payload)) == Ok; origins=%s guards=%s"
                 % (render(pe), origs, texts(fs)), s.get("span"), "dominated by check_outbound(len(%s)) Ok" % render(pe))
@@ -215,6 +218,23 @@ def run(facts, R):
             if names[-2:] == ["header", "id"] and p["l"] != 1:
                 v = sym.rvalue(s["rv"])
                 id_stores.append((i, j, s, v))
+        # replacement-is-bounded: the stand-in must fit whatever limit admits an error reply, so nothing of the refused message
+        # but its id may flow into it - it stays the fixed-size create_error_message(..) value with header.id patched
+        repl_locals = {s_["place"]["l"] for _, _, s_, _ in id_stores}
+        grown = []
+        for i, j, s in fo.assigns():
+            p = s["place"]
+            if p["l"] in repl_locals and p["p"]:
+                names = [e["f"] for e in p["p"] if isinstance(e, dict) and "f" in e]
+                if names != ["header", "id"]:
+                    grown.append(("store " + ".".join(str(n_) for n_ in names), s.get("span")))
+            rv = s["rv"]
+            if "ref" in rv and rv.get("mut") and rv["ref"]["l"] in repl_locals and rv["ref"]["p"]:
+                names = [e["f"] for e in rv["ref"]["p"] if isinstance(e, dict) and "f" in e]
+                grown.append(("&mut " + ".".join(str(n_) for n_ in names), s.get("span")))
+        R.check(not grown, "oversize-rows", fo.path, "replacement-is-bounded",
+                "the replacement for an oversized response takes more than the id from it (%s): it is sent unchecked, so it can exceed the peer limit itself" % [g[0] for g in grown],
+                grown[0][1] if grown else fo.span, "only header.id is written into the replacement")
         R.floor("oversize-rows", len(id_stores), 1, "stores to replacement.header.id")
         for i, j, s, v in id_stores:
             ok = v[0] == "field" and v[2] == "id" and _f(v[1], "header") and v[1][1][0] == "arg" and v[1][1][1] == 1
